@@ -124,6 +124,9 @@ func (s *RelationshipPatternVisitor) EnterOC_RangeLiteral(ctx *parser.OC_RangeLi
 			case TokenTypeRange:
 				state = stateSecondIndex
 
+			case parser.CypherLexerSP:
+				// Whitespace is allowed between the tokens of a range literal
+
 			default:
 				s.ctx.AddErrors(fmt.Errorf("unexpected token in pattern range: %s", typedTokenLeaf.GetText()))
 			}
